@@ -408,31 +408,60 @@ Proof.
   apply N.eqb_neq in HL. rewrite HL. eexists; reflexivity.
 Qed.
 
-(* ---------- the panic: exactly the capacity class ---------- *)
-Lemma read_track_panic_iff file pos len :
-  (exists s, read_track file pos len = Panic s) <-> ti_capacity_class file pos len = true.
+(* ---------- no panic at all; the capacity class is answered "entry count too large" ---------- *)
+Lemma read_track_no_panic file pos len s : read_track file pos len <> Panic s.
+Proof.
+  unfold read_track.
+  destruct (Nat.ltb _ 4); [discriminate|].
+  destruct (negb (bytes_eqb _ _)); [discriminate|].
+  destruct (Nat.ltb _ 12); [discriminate|].
+  destruct (len <? TI_HEADER_LEN); [discriminate|].
+  destruct (2 ^ 64 <=? _); [discriminate|].
+  destruct (negb (_ =? _)); [discriminate|].
+  destruct (2 ^ 63 <=? _); [discriminate|].
+  apply read_entries_no_panic.
+Qed.
+
+Lemma read_entries_not_too_large fuel : forall bs count prev, read_entries fuel bs count prev <> Err E_TI_TOO_LARGE.
+Proof.
+  induction fuel as [|fuel IH]; intros bs count prev; cbn [read_entries].
+  - destruct (count =? 0); discriminate.
+  - destruct (count =? 0); [discriminate|].
+    destruct (negb _); [discriminate|].
+    match goal with |- context[if ?c then Err E_TI_UNSORTED else _] => destruct c end; [discriminate|].
+    match goal with |- context[read_entries fuel ?b ?c ?p] => specialize (IH b c p); destruct (read_entries fuel b c p) end;
+      [discriminate | intros E; injection E as E; apply IH; rewrite E; reflexivity | discriminate].
+Qed.
+
+Lemma read_track_too_large_iff file pos len :
+  read_track file pos len = Err E_TI_TOO_LARGE <-> ti_capacity_class file pos len = true.
 Proof.
   unfold read_track, ti_capacity_class. set (avail := skipn pos file).
   unfold TI_HEADER_LEN, TI_ENTRY_LEN.
   destruct (Nat.ltb (length avail) 4) eqn:E4.
-  { replace (Nat.leb 12 (length avail)) with false by lia. split; [intros [? ?]; discriminate | discriminate]. }
+  { replace (Nat.leb 12 (length avail)) with false by lia. split; discriminate. }
   destruct (bytes_eqb (firstn 4 avail) TIME_INDEX_MAGIC) eqn:EM; cbn [negb].
-  2:{ rewrite andb_false_r. split; [intros [? ?]; discriminate | discriminate]. }
+  2:{ rewrite andb_false_r. split; discriminate. }
   destruct (Nat.ltb (length avail) 12) eqn:E12.
-  { replace (Nat.leb 12 (length avail)) with false by lia. split; [intros [? ?]; discriminate | discriminate]. }
+  { replace (Nat.leb 12 (length avail)) with false by lia. split; discriminate. }
   replace (Nat.leb 12 (length avail)) with true by lia. cbn [andb].
   destruct (len <? 12) eqn:EL.
-  { replace (12 <=? len) with false by lia. split; [intros [? ?]; discriminate | discriminate]. }
+  { replace (12 <=? len) with false by lia. split; discriminate. }
   replace (12 <=? len) with true by lia. cbn [andb].
   destruct (2 ^ 64 <=? le_decode (slice avail 4 8) * 16) eqn:EO.
-  { replace (le_decode (slice avail 4 8) * 16 <? 2 ^ 64) with false by lia. split; [intros [? ?]; discriminate | discriminate]. }
+  { replace (le_decode (slice avail 4 8) * 16 <? 2 ^ 64) with false by lia. split; discriminate. }
   replace (le_decode (slice avail 4 8) * 16 <? 2 ^ 64) with true by lia. cbn [andb].
   destruct (len - 12 =? le_decode (slice avail 4 8) * 16) eqn:EP; cbn [negb andb].
-  2:{ split; [intros [? ?]; discriminate | discriminate]. }
+  2:{ split; discriminate. }
   destruct (2 ^ 63 <=? le_decode (slice avail 4 8) * 16) eqn:EC.
-  { split; [reflexivity | intros _; eexists; reflexivity]. }
-  split; [intros [s Hs]; exfalso; eapply read_entries_no_panic; exact Hs | discriminate].
+  { split; reflexivity. }
+  split; [intros Hs; exfalso; eapply read_entries_not_too_large; exact Hs | discriminate].
 Qed.
+
+(* kept under its old name (the hypothesis is no longer needed) *)
+Lemma read_track_no_panic_outside file pos len :
+  ti_capacity_class file pos len = false -> forall s, read_track file pos len <> Panic s.
+Proof. intros _ s. apply read_track_no_panic. Qed.
 
 Lemma sort_entries_spec l :
   sortedb (sort_entries l) = true /\ Permutation l (sort_entries l) /\
@@ -464,13 +493,6 @@ Lemma read_track_rejects_unsorted file pos es tail :
   read_track file pos (N.of_nat (length (track_image es))) = Err E_TI_UNSORTED.
 Proof.
   intros Hwf Hn Hs Hsk. rewrite (read_track_image file pos es tail Hwf Hn Hsk), Hs. reflexivity.
-Qed.
-
-Lemma read_track_no_panic_outside file pos len :
-  ti_capacity_class file pos len = false -> forall s, read_track file pos len <> Panic s.
-Proof.
-  intros Hc s Hp. assert (E : ti_capacity_class file pos len = true) by (apply read_track_panic_iff; exists s; exact Hp).
-  congruence.
 Qed.
 
 Lemma ti_consts_tied :
